@@ -98,8 +98,33 @@ def receiver_field(expr, binds, base='self'):
     return None
 
 
+def _helper_element_methods(helper, idx):
+    """methods a module-level helper calls on its idx-th parameter or on the elements it iterates from it (`for x in exprs: x.get_r(..)`)"""
+    params = [a.arg for a in helper.args.args]
+    if idx >= len(params):
+        return set()
+    p = params[idx]
+    elems = {p}
+    for n in ast.walk(helper):
+        if isinstance(n, ast.For) and isinstance(n.iter, ast.Name) and n.iter.id == p and isinstance(n.target, ast.Name):
+            elems.add(n.target.id)
+        if isinstance(n, (ast.ListComp, ast.GeneratorExp, ast.SetComp)):
+            for g in n.generators:
+                if isinstance(g.iter, ast.Name) and g.iter.id == p and isinstance(g.target, ast.Name):
+                    elems.add(g.target.id)
+    out = set()
+    for n in ast.walk(helper):
+        if isinstance(n, ast.Call) and isinstance(n.func, ast.Attribute):
+            r = n.func.value
+            while isinstance(r, ast.Subscript):
+                r = r.value
+            if isinstance(r, ast.Name) and r.id in elems:
+                out.add(n.func.attr)
+    return out
+
+
 class MethodInfo(object):
-    def __init__(self, fn, fields, base='self'):
+    def __init__(self, fn, fields, base='self', mod=None):
         self.fn = fn
         self.read = set()        # fields read on base
         self.recursed = {}       # field -> set(method names called on a value derived from it)
@@ -114,6 +139,17 @@ class MethodInfo(object):
                 if f is not None and f in fields:
                     self.recursed.setdefault(f, set()).add(n.func.attr)
                     self.calls.append((f, n.func.attr, n))
+            if mod is not None and isinstance(n, ast.Call) and isinstance(n.func, ast.Name) and n.func.id in getattr(mod, 'funcs', {}) \
+                    and n.func.id not in ('key_expr', 'key_expr_compose', 'MatchExpr'):
+                # a field (or a generator over it) handed to a module-level helper: the methods the helper calls on the elements
+                for i_, a_ in enumerate(n.args):
+                    f = receiver_field(a_, binds, base)
+                    if f is None and isinstance(a_, (ast.GeneratorExp, ast.ListComp)) and len(a_.generators) == 1:
+                        f = receiver_field(a_.generators[0].iter, binds, base)
+                    if f is not None and f in fields:
+                        for mname_ in _helper_element_methods(mod.funcs[n.func.id], i_):
+                            self.recursed.setdefault(f, set()).add(mname_)
+                            self.calls.append((f, mname_, n))
             if isinstance(n, ast.Call) and isinstance(n.func, ast.Name) and n.func.id in ('hash', 'key_expr', 'key_expr_compose', 'MatchExpr'):
                 for a in n.args[:1]:
                     f = receiver_field(a, binds, base)
@@ -137,7 +173,7 @@ class Matrix(object):
             self.fields[c] = fs
             self.methods[c] = {}
             for name, fn in mod.methods(c).items():
-                self.methods[c][name] = MethodInfo(fn, fs)
+                self.methods[c][name] = MethodInfo(fn, fs, mod=mod)
         # any further Expr subclass that is not modelled?
         for cname in mod.classes:
             if cname not in NODE_CLASSES and cname not in ('Expr', 'ExprTop') and 'Expr' in mod.mro(cname):
